@@ -201,7 +201,9 @@ func opBloom(h *HState, a Event) Event {
 // ---- generator ---------------------------------------------------------------------
 
 func bloomItem(c *Ctx, k int) []byte {
-	lens := []int{0, 1, 2, 3, 4, 5, 6, 7, 8, 20, 32, 33, 36, 65}
+	// every length mod 4; lengths around the wire limit of a filteradd payload / script element (520) and well beyond it
+	// (the filter itself has no item length limit)
+	lens := []int{0, 1, 2, 3, 4, 5, 6, 7, 8, 20, 32, 33, 36, 65, 519, 520, 521, 1023}
 	return randBytes(c.Rng, lens[k%len(lens)])
 }
 
@@ -305,7 +307,7 @@ func runC09(c *Ctx) {
 		for s := 0; s < c.Pick(30, 60); s++ {
 			switch x := r.Intn(20); {
 			case x < 6:
-				it := bloomItem(c, r.Intn(14))
+				it := bloomItem(c, r.Intn(18))
 				added = append(added, it)
 				calls = append(calls, Event{"op": "Add", "item": ints(it)})
 			case x < 8:
@@ -325,7 +327,7 @@ func runC09(c *Ctx) {
 				calls = append(calls, Event{"op": "MatchesOutPoint", "txid": ints(o[:32]), "idx": w32(idx)})
 				calls = append(calls, Event{"op": "Matches", "item": ints(o)}) // the same 36 bytes as a plain item
 			case x < 16:
-				calls = append(calls, Event{"op": "Matches", "item": ints(bloomItem(c, r.Intn(14)))})
+				calls = append(calls, Event{"op": "Matches", "item": ints(bloomItem(c, r.Intn(18)))})
 			case x < 17:
 				calls = append(calls, Event{"op": "MatchesOutPoint", "txid": ints(randBytes(r, 32)), "idx": w32(r.Uint32())})
 			case x < 18:
@@ -339,7 +341,7 @@ func runC09(c *Ctx) {
 				}
 				added, addedOP = nil, nil
 			default:
-				calls = append(calls, Event{"op": "Matches", "item": ints(bloomItem(c, r.Intn(14)))})
+				calls = append(calls, Event{"op": "Matches", "item": ints(bloomItem(c, r.Intn(18)))})
 			}
 		}
 		c.Run(calls)
